@@ -99,6 +99,7 @@ Definition d_op (s : sx) : option op :=
   | L [I 2; i; x; k] => do i' <- d_nat i; do x' <- d_aarg x; do k' <- d_Z k; Some (OGen i' x' k')
   | L [I 3; i] => do i' <- d_nat i; Some (OGoal i')
   | L [I 4] => Some OMask
+  | L [I 5] => Some OInit
   | _ => None end.
 Definition d_modes (s : sx) : option modes :=
   match s with
@@ -158,6 +159,7 @@ Definition x_opout (m : modes) (o : opout) : sx :=
   | RGen out steps => L [I 2; x_out m out; x_nat steps]
   | RGoal b => L [I 3; x_bool b]
   | RMask mk => L [I 4; x_list x_bool mk]
+  | RInit st => L [I 5; x_state st]
   | RError => L [I 9]
   end.
 Definition x_action (a : action) : sx :=
